@@ -15,7 +15,8 @@ EXPLANATION = (
     "and validate(); (R02.5) the Mahalanobis weight is the inverted cost of the filter distance divided by conf; "
     "(R02.6) optimize() keeps exactly the newest filter estimate as the track's comparison box and make_prediction "
     "stores update(predict(state)); (R02.7) weights only on the too_far()==false side; (R02.8) the new-track weight "
-    "handed to the assignment is the configured threshold in all four trackers.")
+    "handed to the assignment is the configured threshold in all four trackers. "
+    "R02.6 includes the make_prediction sequencing clauses of C07 (the box kept for the next association is converted from the UPDATED state); (R02.11) the batch trackers release the batch monitor only after the scene result was sent, i.e. after the store updates of the batch, so the next batch computes distances against current tracks.")
 NOT_DECIDED = ["optimality of the assignment (trusted: pathfinding::kuhn_munkres)", "IoU / Kalman numerics",
                "uniqueness margins / ties"]
 ASSUMPTIONS = ["pathfinding::kuhn_munkres returns a maximum-weight perfect matching of the rows",
@@ -37,7 +38,12 @@ def run(ctx):
     n += T.rule_compatible(ctx, 'R02.4', 'R02.4', 'R02.4')
     ctx.floor('R02.4', n, 13)
     ctx.rule('R02.6', 'kept comparison box = filter estimate; single newest estimate; make_prediction stores the state')
-    ctx.floor('R02.6', M.rule_estimate_kept(ctx, 'R02.6'), 6)
+    n6 = M.rule_estimate_kept(ctx, 'R02.6')
+    n6 += C07.sequence_rule(ctx, 'R02.6')
+    ctx.floor('R02.6', n6, 14)
+    ctx.rule('R02.11', 'batch trackers: a batch releases the monitor only after its store updates (next batch sees current tracks)')
+    from props import C06
+    ctx.floor('R02.11', C06.protocol(ctx, 'R02.11'), 10)
     ctx.rule('R02.10', 'the assignment sees every gated pair: complete distance stream (exactly-once responses, consumers)')
     n = S.rule_exactly_once_responses(ctx, 'R02.10')
     n += S.rule_fanout(ctx, 'R02.10')
